@@ -13,6 +13,8 @@ import (
 	"sync/atomic"
 	"time"
 
+	disc "github.com/IBM/TSS/disc"
+
 	"verifharness/common"
 )
 
@@ -43,7 +45,8 @@ func topicFor(label string, i int) []byte {
 }
 
 func unitC07honest(e common.Env, p *common.Part) {
-	p.Rule = "real disc.Member objects on a disc-level network (per-link FIFO, PRNG delays up to 0.6 ms, 1-2 ms probe ticker): universes of 2..12 members, participant subsets, identifiers from the 16-bit range incl. byte boundaries; exactly-expected callers (all must complete with valid identical lists), fewer than expected (all must return an error without continuation), more than expected (two-outcome + validity + agreement only); distinct key = (universe, participants, expected, seed); non-trivial when >=2 members called"
+	defer c07syncTransport(e, p)
+	p.Rule = "real disc.Member objects on a disc-level network (per-link FIFO, PRNG delays up to 0.6 ms, 1-2 ms probe ticker): universes of 2..12 members, participant subsets, identifiers from the 16-bit range incl. byte boundaries; exactly-expected callers (all must complete with valid identical lists), fewer than expected (all must return an error without continuation), more than expected (two-outcome + validity + agreement only, followed by a synchronisation of the same members on another topic in exactly the expected number, which must complete everywhere); plus sessions on a SYNCHRONOUS transport (Send and Broadcast call the peer's HandleMessage on the caller's goroutine, as the package's own tests wire it): 4..7 configured members, exactly the expected number or one / two more invoke Synchronize at almost the same time - every call must return by its deadline; distinct key = (universe, participants, expected, seed); non-trivial when >=2 members called"
 	n := e.Pick(240, 6000)
 	for i := 0; i < n; i++ {
 		if !e.Mine(i) || p.ViolationCount() >= 3 {
@@ -100,6 +103,37 @@ func unitC07honest(e common.Env, p *common.Part) {
 			wg.Wait()
 			sig, what := c07judge(net, expected)
 			comp := honestCompletions(net)
+			if sig == "" && kind == "more" {
+				// after a synchronisation that more members joined than were expected (whatever its outcome), the same members - on
+				// the same objects and links - synchronise on another topic in exactly the expected number: all must complete
+				// (a surplus acknowledgement that nobody waits for any more must not occupy anything)
+				time.Sleep(3 * time.Millisecond)
+				var again []*dinst
+				net.imu.RLock()
+				for _, id := range callers {
+					for _, in := range net.insts[id] {
+						again = append(again, in)
+					}
+				}
+				net.imu.RUnlock()
+				for _, in := range again {
+					in.mu.Lock()
+					in.lists, in.err, in.done = nil, nil, false
+					in.mu.Unlock()
+				}
+				ctx2, cancel2 := context.WithTimeout(context.Background(), time.Duration(scale)*2500*time.Millisecond)
+				var wg2 sync.WaitGroup
+				topic2 := topicFor("c07-honest-after-surplus", i)
+				for _, in := range again {
+					net.start(ctx2, &wg2, in, topic2, len(callers), time.Duration(1+rng.Intn(2))*time.Millisecond)
+				}
+				wg2.Wait()
+				cancel2()
+				sig, what = c07judge(net, len(callers))
+				if c2 := honestCompletions(net); sig == "" && c2 != len(callers) {
+					sig, what = "no-completion", fmt.Sprintf("only %d of %d members completed a synchronisation in exactly the expected number that followed one which more members than expected had joined (same objects, same links)", c2, len(callers))
+				}
+			}
 			if sig == "" {
 				switch kind {
 				case "exact":
@@ -129,6 +163,116 @@ func unitC07honest(e common.Env, p *common.Part) {
 		if i%41 == 0 {
 			p.Sample(map[string]interface{}{"kind": kind, "universe": universe, "callers": callers, "expected": expected, "completions": comp})
 		}
+	}
+}
+
+// c07syncTransport: the members are wired the way the package's own tests wire them - Send and Broadcast call the peer's
+// HandleMessage on the caller's goroutine (a synchronous transport; also what an in-process deployment or a transport that
+// serialises deliveries with the caller looks like). Universes of 4..7 configured members; exactly the expected number, or one or two
+// more, invoke Synchronize at (almost) the same time; further configured members never call. Every call must return - complete or
+// report an error - by its deadline plus a margin, whatever the transport's threading.
+func c07syncTransport(e common.Env, p *common.Part) {
+	n := e.Pick(120, 3000)
+	for i := 0; i < n; i++ {
+		if !e.Mine(100000+i) || p.ViolationCount() >= 3 {
+			continue
+		}
+		rng := e.Rng("c07sync", i)
+		usize := 4 + rng.Intn(4)
+		universe := pickIDs(rng, usize, i%2 == 1)
+		expected := 2 + rng.Intn(usize-3)
+		surplus := i % 3 // 0, 1 or 2 members more than expected
+		k := expected + surplus
+		if k > usize {
+			k = usize
+		}
+		callers := append([]uint16{}, universe[:k]...)
+		key := fmt.Sprintf("synchronous transport universe=%v callers=%v expected=%d", universe, callers, expected)
+		p.Begin(key)
+		var mmu sync.RWMutex
+		members := map[uint16]*disc.Member{}
+		deliver := func(src, dst uint16, b []byte) {
+			mmu.RLock()
+			m := members[dst]
+			mmu.RUnlock()
+			if m != nil {
+				m.HandleMessage(src, append([]byte{}, b...))
+			}
+		}
+		for _, id := range universe {
+			id := id
+			m := &disc.Member{Membership: append([]uint16{}, universe...), ID: id, Logger: common.Nolog{}}
+			m.Broadcast = func(b []byte) {
+				for _, o := range universe {
+					if o != id {
+						deliver(id, o, b)
+					}
+				}
+			}
+			m.Send = func(b []byte, to uint16) { deliver(id, to, b) }
+			mmu.Lock()
+			members[id] = m
+			mmu.Unlock()
+		}
+		dl := 400 * time.Millisecond
+		ctx, cancel := context.WithTimeout(context.Background(), dl)
+		type outcome struct {
+			id   uint16
+			err  error
+			list []uint16
+		}
+		outs := make(chan outcome, len(callers))
+		topic := topicFor("c07-sync-transport", i)
+		for _, id := range callers {
+			id := id
+			d := time.Duration(rng.Intn(300)) * time.Microsecond
+			go func() {
+				time.Sleep(d)
+				var got []uint16
+				err := members[id].Synchronize(ctx, func(l []uint16) { got = append([]uint16{}, l...) }, topic, expected, time.Duration(1+int(id)%2)*time.Millisecond)
+				outs <- outcome{id, err, got}
+			}()
+		}
+		returned := map[uint16]outcome{}
+		watchdog := time.After(dl + 6*time.Second)
+	collect:
+		for len(returned) < len(callers) {
+			select {
+			case o := <-outs:
+				returned[o.id] = o
+			case <-watchdog:
+				break collect
+			}
+		}
+		cancel()
+		p.Case(key, true)
+		p.Count("sessions_synchronous_transport", 1)
+		if surplus > 0 {
+			p.Count("sessions_synchronous_transport_with_surplus", 1)
+		}
+		if len(returned) < len(callers) {
+			var missing []uint16
+			for _, id := range callers {
+				if _, ok := returned[id]; !ok {
+					missing = append(missing, id)
+				}
+			}
+			p.Violate("neither-completed-nor-failed/synchronous-transport", fmt.Sprintf("%s: the Synchronize calls of %v had neither completed nor returned an error 6 s after their deadline", key, missing), map[string]interface{}{"universe": universe, "callers": callers, "expected": expected})
+			continue
+		}
+		comp := 0
+		for _, o := range returned {
+			if o.err == nil {
+				comp++
+				if len(o.list) != expected {
+					p.Violate("wrong-size/synchronous-transport", fmt.Sprintf("%s: member %d completed with %v", key, o.id, o.list), nil)
+				}
+			}
+		}
+		if surplus == 0 && comp != len(callers) {
+			p.Count("exact_sessions_not_completed_on_the_synchronous_transport", 1)
+		}
+		p.Count("completions", int64(comp))
 	}
 }
 
